@@ -40,6 +40,7 @@ REGEXES = [
 EXPRS += [r.strip() for r in REGEXES]
 
 DOCS = [
+    '概要\n==\n\ntext\n\n???\n---\n\nmore', 'Intro.\n\nПример\n======\n\n  - item', '!!!\n===\n', ':parameters: not a list\n:return: r', ':Parameters:\n  one\n\n  two\n',
     'plain words here', '', ' ', 'Summary line.\n\n    Details.\n', 'L{C} and C{x} I{y} B{z} U{http://u}', 'L{unclosed', '@param x: the x\n@type x: int\n@return: r\n@rtype: C',
     '@param nope: missing\n@raise ValueError: v\n@ivar i: iv\n@cvar c: cv\n@see: that\n@note: n', '@unknownfield: u', ':param x: the x\n:type x: int\n:returns: r\n:rtype: `C`',
     '`C` and ``lit`` *em* **st** `broken', 'Title\n=====\n\ntext\n\nSub\n---\n', '.. note:: n\n\n.. code:: python\n\n    x = 1\n', '.. unknowndirective:: x', 'Args:\n    x (int): the x\n    *args: more\n\nReturns:\n    str: r\n\nRaises:\n    ValueError: v\n',
